@@ -466,14 +466,20 @@ def make_engine(world: World, outcome: int, user_reports: list[tuple[str, str]],
     definition in it, and leaves report files in the output directory the way Report._get_output_path names them
     (<report name>.<format>); outcome 0 = success, 1 = failure with a message"""
 
-    def run_scriptplan(tjp_file: str, output_dir: Optional[str] = None) -> tuple[bool, Optional[str]]:
+    def run_scriptplan(tjp_file: str, output_dir: Optional[str] = None, report_ids: Optional[list] = None) -> tuple[bool, Optional[str]]:
         # the real run_scriptplan catches every Exception and returns (False, message)
         try:
-            return _run(tjp_file, output_dir)
+            return _run(tjp_file, output_dir, report_ids)
         except OSError as e:
             return (False, str(e))
 
-    def _run(tjp_file: str, output_dir: Optional[str] = None) -> tuple[bool, Optional[str]]:
+    def _path(od: str, name: str, fmt: str) -> str:
+        # Report._get_output_path: Path(output_dir) / f"{name}.{ext}"  (an absolute name replaces the directory, '..' climbs out of it)
+        import posixpath
+
+        return posixpath.normpath(name + "." + fmt if name.startswith("/") else od + "/" + name + "." + fmt)
+
+    def _run(tjp_file: str, output_dir: Optional[str] = None, report_ids: Optional[list] = None) -> tuple[bool, Optional[str]]:
         world.work("engine-read", tjp_file)
         if tjp_file not in world.files:
             return (False, f"Error: file not found {tjp_file}")
@@ -487,13 +493,24 @@ def make_engine(world: World, outcome: int, user_reports: list[tuple[str, str]],
             rid, name, fmt = m.groups()
             body = (json.dumps({"report_id": rid, "columns": ["id", "start", "end"], "data": [{"id": AUTO_MARK, "start": "s", "end": "e"}]}, indent=2)
                     if fmt == "json" else f"Id,Start,End\n{AUTO_MARK},s,e\n")
-            world.work("engine-write", f"{od}/{name}.{fmt}")
-            world.create_file(f"{od}/{name}.{fmt}", body.encode())
+            world.work("engine-write", _path(od, name, fmt))
+            world.create_file(_path(od, name, fmt), body.encode())
         for name, fmt in user_reports:
+            if report_ids is not None and name not in report_ids:
+                continue  # the engine generates only the requested reports (--report <id>)
             body = (json.dumps({"report_id": name, "columns": ["name"], "data": [{"name": "USER"}]}, indent=2)
                     if fmt == "json" else "Name\nUSER\n")
-            world.work("engine-write", f"{od}/{name}.{fmt}")
-            world.create_file(f"{od}/{name}.{fmt}", body.encode())
+            dest = _path(od, name, fmt)
+            world.work("engine-write", dest)
+            parent = dest.rsplit("/", 1)[0] or "/"
+            if parent not in world.dirs:  # os.makedirs(output_path.parent, exist_ok=True)
+                cur = ""
+                for x in parent.strip("/").split("/"):
+                    cur += "/" + x
+                    if cur not in world.dirs:
+                        world.dirs.add(cur)
+                        world.created.append(cur)
+            world.create_file(dest, body.encode())
         return (True, None)
 
     return run_scriptplan
